@@ -7,14 +7,20 @@
   list of steps — pushes by the application thread, `start`/`finish`/`callback` of any task by any worker in any
   order, `flushBegin`/`flushWait`/`flushEnd` anywhere (a step that is not enabled does nothing, so every list is a
   schedule: all interleavings, any number of workers, flush racing with completion and with callbacks, pushes
-  before, during and after flush).  The transitions are the regenerated translations of `submit_task`,
+  before, during and after flush — a push either as one step or in the regions of `submit_task`: `pushBegin`
+  (check, id, `pool.submit`) and `pushStore` (the store into the pending map), with anything in between; a wait of
+  flush may also run into its 10 s bound, `flushTimeout`).  The transitions are the regenerated translations of `submit_task`,
   `__check_open`, `_next_id`, the done-callback, and the facts read off the regenerated guard skeleton of `flush`
   and off `push_snapshot` / `_push_task`.  No bound anywhere.
 
   TRUSTED, stated as the model's semantics (Model/Tasks.lean): the executor — a callable accepted by
   `pool.submit` is started exactly once by some pool thread, `future.result()` returns when the task is done and
-  re-raises its error, done-callbacks run after completion; `dict.values()` / `list(view)` do not raise; tasks end
-  (the 10 s bound of `future.result(10)` is not reached).
+  re-raises its error (or raises TimeoutError after the bound), done-callbacks run after completion (at once when
+  attached to a finished future); `dict.values()` / `list(view)` do not raise.
+
+  Two known findings are theorems here: flush does NOT drain when it begins while a push is inside `submit_task`
+  (`c09_drained_needs_no_overlap`) or when a wait times out (`c09_drained_needs_no_timeout`); `c09_drained_partial`
+  names both hypotheses.
 -/
 import DeepModel.Proofs.Tasks
 
@@ -56,17 +62,40 @@ theorem c09_flush_completes (f : Int → Outcome) (s : St) (todo : List Int) (hf
     rw [hs]
     exact ih _ rfl hd
 
-/-- **flush drains** — whenever flush has returned, every task ever accepted is finished (succeeded or failed);
-    and nothing was accepted after flush began (see `c09_refuse`, `c09_closed_stays`). -/
-theorem c09_drained (f : Int → Outcome) (sched : List Step) (h : (run f sched).flush = .returned) :
-    ∀ t ∈ (run f sched).tasks, t.fut = .done :=
-  ((inv_run f sched).closedR h).2
+/-- `NoPushOverlapsFlush`: no `flushBegin` happened while a push was between `pool.submit` and its store into the
+    pending map (ghost flag of the model) -/
+abbrev NoPushOverlapsFlush (s : St) : Prop := s.overlap = false
+/-- `NoWaitTimedOut`: no `future.result(10)` of flush gave up on an unfinished task -/
+abbrev NoWaitTimedOut (s : St) : Prop := s.timedOut = false
 
-/-- while flush is still waiting, every unfinished task is one it waits for -/
+/-- **flush drains** (partial: two named hypotheses, each needed — see the two witnesses below) — whenever flush has
+    returned, every task ever accepted is finished (succeeded or failed), PROVIDED no push was in the middle of
+    `submit_task` when a flush began and no wait of flush ran into its 10 s bound; nothing is accepted after flush
+    began (`c09_refuse`, `c09_closed_stays`). -/
+theorem c09_drained_partial (f : Int → Outcome) (sched : List Step)
+    (h1 : NoPushOverlapsFlush (run f sched)) (h2 : NoWaitTimedOut (run f sched))
+    (h : (run f sched).flush = .returned) :
+    ∀ t ∈ (run f sched).tasks, t.fut = .done :=
+  ((inv_run f sched).closedR ⟨h1, h2⟩ h).2
+
+/-- witness that `NoPushOverlapsFlush` is needed (finding `C09/flush-misses-task-being-submitted`): a push has handed
+    its task to the pool but not stored it yet; flush begins, finds nothing pending and returns; the task is running. -/
+theorem c09_drained_needs_no_overlap :
+    let s := run (fun _ => .ok) [.pushBegin, .start 1 0, .flushBegin, .flushEnd, .pushStore 1]
+    s.flush = .returned ∧ s.timedOut = false ∧ s.refused = 0 ∧ s.tasks.map (·.fut) = [.running 0] := by decide
+
+/-- witness that `NoWaitTimedOut` is needed (finding `C09/flush-gives-up-after-10s`): flush swallows the TimeoutError
+    of `future.result(10)` and returns with the slow task still running. -/
+theorem c09_drained_needs_no_timeout :
+    let s := run (fun _ => .ok) [.push, .start 1 0, .flushBegin, .flushTimeout, .flushEnd]
+    s.flush = .returned ∧ s.overlap = false ∧ s.tasks.map (·.fut) = [.running 0] := by decide
+
+/-- while flush is still waiting (and under the same two hypotheses), every unfinished task is one it waits for -/
 theorem c09_waits_for_all (f : Int → Outcome) (sched : List Step) (todo : List Int)
+    (h1 : NoPushOverlapsFlush (run f sched)) (h2 : NoWaitTimedOut (run f sched))
     (h : (run f sched).flush = .waiting todo) :
     ∀ t ∈ (run f sched).tasks, t.fut ≠ .done → t.id ∈ todo :=
-  ((inv_run f sched).closedW todo h).2
+  ((inv_run f sched).closedW ⟨h1, h2⟩ todo h).2
 
 /-- **exactly once** — at every point of every schedule an accepted snapshot's task has been started at most
     once; when it is finished it ran exactly once and made exactly the send attempts of one run (one for a
@@ -89,7 +118,7 @@ theorem c09_once (f : Int → Outcome) (sched : List Step) :
     have := i.onceD t ht hq
     simp [this.1, this.2]
 
-/-- one run = one send for a snapshot that converts and is delivered or fails in `send`; none otherwise -/
+/-- tripwire: one run = one send for a snapshot that converts and is delivered or fails in `send`; none otherwise -/
 theorem c09_sends_per_outcome :
     Outcome.ok.sends = 1 ∧ (∀ e, (Outcome.sendFails e).sends = 1) ∧ Outcome.unconvertible.sends = 0 ∧
     (∀ e, (Outcome.dies e).sends = 0) := by
@@ -99,7 +128,7 @@ theorem c09_sends_per_outcome :
 theorem c09_ids_distinct (f : Int → Outcome) (sched : List Step) : ((run f sched).tasks.map (·.id)).Nodup :=
   (inv_run f sched).nodup
 
-/-- **never on the caller** — no convert/send work is ever done by the thread that calls `push_snapshot`;
+/-- tripwire: **never on the caller** — no convert/send work is ever done by the thread that calls `push_snapshot`;
     the body of every task runs on pool workers only (`ranOn` lists workers by construction of `start`). -/
 theorem c09_not_on_caller (f : Int → Outcome) (sched : List Step) : (run f sched).callerRuns = 0 :=
   (inv_run f sched).caller
@@ -149,9 +178,10 @@ theorem c09_contained (f g : Int → Outcome) (sched : List Step) :
     passes every `except Exception`) before doing anything: no id is taken, nothing reaches the pool or the pending
     map; `push_snapshot` hands that exception to its caller. -/
 theorem c09_refuse (f : Int → Outcome) (s : St) (h : s.th.isOpen = false) :
-    submitTask s.th = .error .base ∧ step f s .push = { s with refused := s.refused + 1 } := by
-  refine ⟨?_, push_closed s h⟩
-  simp [submitTask, h, fact_refuses, refusalClass]
+    submitTask s.th = .error .base ∧ step f s .push = { s with refused := s.refused + 1 } ∧
+    step f s .pushBegin = { s with refused := s.refused + 1 } := by
+  refine ⟨?_, push_closed s h, pushBegin_closed s h⟩
+  simp [submitTask, submitAccept, h, fact_refuses, refusalClass]
 
 /-- flush closes the handler before it looks at the pending map, and a closed handler stays closed -/
 theorem c09_closed_stays (f : Int → Outcome) (sched : List Step) (s : St) (h : s.th.isOpen = false) :
@@ -162,6 +192,29 @@ theorem c09_closed_stays (f : Int → Outcome) (sched : List Step) (s : St) (h :
     apply ih
     cases st with
     | push => show (push s).th.isOpen = false; rw [push_closed s h]; exact h
+    | pushBegin => show (pushBegin s).th.isOpen = false; rw [pushBegin_closed s h]; exact h
+    | pushStore id =>
+      simp only [step]
+      split
+      · cases findTask id s.tasks with
+        | none => exact h
+        | some t =>
+          dsimp only
+          split
+          · show (callback (submitStore s.th id) id).isOpen = false; rw [callback_isOpen]; exact h
+          · exact h
+      · exact h
+    | flushTimeout =>
+      simp only [step]
+      split
+      · cases findTask _ s.tasks with
+        | none => exact h
+        | some t =>
+          dsimp only
+          split
+          · exact h
+          · split <;> exact h
+      · exact h
     | start id w =>
       simp only [step]
       cases findTask id s.tasks with
